@@ -1,5 +1,9 @@
 pub mod common;
+pub mod c01;
 pub mod c02;
+pub mod c05;
+pub mod c06;
+pub mod ingest;
 pub mod c07;
 pub mod c08;
 pub mod c13;
@@ -7,7 +11,7 @@ pub mod c13;
 use crate::core::coord::PropDef;
 
 pub fn all() -> Vec<&'static PropDef> {
-    vec![&c02::DEF, &c07::DEF, &c08::DEF, &c13::DEF]
+    vec![&c01::DEF, &c02::DEF, &c05::DEF, &c06::DEF, &c07::DEF, &c08::DEF, &c13::DEF]
 }
 
 pub fn get(id: &str) -> Option<&'static PropDef> {
